@@ -1,0 +1,6 @@
+//go:build !verif
+
+package litefs
+
+// verifPoint is a no-op unless built with the "verif" tag.
+func verifPoint(site string, obj any, a int64, b bool) {}
